@@ -50,9 +50,28 @@ package reconciler
 //@   maypanic
 //@   flag dyncall.GetObjectStatus=pure
 //@   atcall (*incremental).processSingle@1 requires @only-pending-or-deleted change.Deleted || *status.Kind == StatusKindPending || *status.Kind == StatusKindRefreshing
+//@   atcall (*incremental).processSingle@1 requires @progress-is-the-change-attempted lastRev == rev
 
 // ---------------------------------------------------------------------------
 // Retry pacing and progress (C16)
+
+// run: the revision it reports as reconciled is the one single()/batch() returned - the revision
+// of the last change they looked at before the round-size limit cut the round short - never the
+// table revision of the snapshot (changes beyond the cut have not been attempted yet).
+//@ spec roundProgress(tag mathint) mathint
+//@ func (*retries).errors
+//@   trusted
+//@   pure
+//@ func (*incremental).run returns (errs, lastRev, retryLowWatermark)
+//@   property C16
+//@   flag nosafety
+//@   maypanic
+//@   flag assumepre=incremental-fields-initialised
+//@   aftercall (*incremental).single@1 assume roundProgress(1) == result
+//@   aftercall (*incremental).batch@1 assume roundProgress(1) == result
+//@   ensures @reports-what-was-attempted lastRev == roundProgress(1)
+//@   ensureslocal @reports-the-retry-low-watermark retryLowWatermark == roundProgress(2)
+//@   aftercall (*incremental).processRetries@1 assume roundProgress(2) == result
 
 // processRetries never attempts an item before its retry time.
 //@ package time
@@ -95,6 +114,9 @@ package reconciler
 //@ func (*retries).Pop
 //@   trusted
 //@   modifies GH_heapOps H_reconciler_retryPrioQueue_* H_reconciler_retryItem_index H_reconciler_retryItem_revIndex E_p_reconciler_retryItem H_reconciler_retries_waitTimer H_reconciler_retries_waitChan CH_closed
+//@ func (*retries).Clear
+//@   trusted
+//@   modifies GH_heapOps H_reconciler_retryPrioQueue_* H_reconciler_retryItem_index H_reconciler_retryItem_revIndex E_p_reconciler_retryItem H_reconciler_retries_waitTimer H_reconciler_retries_waitChan CH_closed MD_* MV_* MN_*
 //@ func (*retries).resetTimer
 //@   trusted
 //@   modifies H_reconciler_retries_waitTimer H_reconciler_retries_waitChan CH_closed
@@ -177,3 +199,18 @@ package reconciler
 //@   property C15
 //@   flag nosafety
 //@   ensures @new-pending-id GH_ids[nil] == old(GH_ids)[nil] + 1 && result.id == GH_ids[nil]
+
+// refreshLoop (C15): an object is marked Refreshing only inside the write transaction in which it
+// was re-read and found unchanged (same revision as in the snapshot the loop walks) - check and
+// write under the same table lock, so a concurrent change is never overwritten and a deleted
+// object never re-created. Every transaction opened is committed.
+//@ func (*reconciler).refreshLoop$1
+//@   property C15
+//@   flag nosafety
+//@   maypanic
+//@   flag assumepre=reconciler-fields-initialised-and-no-root-mutex-held
+//@   flag dyncall.GetObjectStatus=pure
+//@   flag dyncall.SetObjectStatus=pure
+//@   flag dyncall.CloneObject=pure
+//@   atcall RWTable.Get@1 requires @reread-under-the-write-transaction $1 == wtxn
+//@   atcall RWTable.Insert@1 requires @only-the-version-just-reread $1 == wtxn && ok && rev == newRev
